@@ -603,6 +603,16 @@ func (e *Exec) specCall(c *ast.CallExpr, env *SpecEnv) (Val, types.Type) {
 				return iv(r), types.Typ[types.String]
 			}
 			return v, t
+		case "allocated":
+			// allocated(x): x is nil or refers to an object/array that exists in the state the clause is evaluated in
+			v, _ := e.evalSpec1(c.Args[0], env)
+			return bv(e.existing(e.asInt(v))), tBool
+		case "disjoint":
+			// disjoint(a, b): different objects / backing arrays (or one of them nil)
+			a, _ := e.evalSpec1(c.Args[0], env)
+			b, _ := e.evalSpec1(c.Args[1], env)
+			x, y := e.asInt(a), e.asInt(b)
+			return bv(mkOr(mkEq(x, "0"), mkEq(y, "0"), mkNot(mkEq(sx("root", x), sx("root", y))))), tBool
 		case "strsrc":
 			// strsrc(b): the string a byte slice was converted from ([]byte(s))
 			v, _ := e.evalSpec1(c.Args[0], env)
